@@ -77,7 +77,7 @@ Init ==
           /\ exp = ArcBox(c, u, v, th0, <<R(0), R(1)>>, dir, TRUE)
   \/ /\ kind = "cont"       \* shapes and containers: union of members, stroke growth only when painted
      /\ \E cont \in {"rect", "path", "subpath", "subpath_open", "group", "nested", "circle", "ellipse", "polyline", "polygon", "line", "ellipse_rot"}, stroke \in {"none", "unset", "red"},
-           sw \in {R(3), Q(1, 2)}, k \in {R(1), R(2), Q(1, 2)}, ws \in BOOLEAN, tr \in BOOLEAN :
+           sw \in {R(3), Q(1, 2), R(0)}, k \in {R(1), R(2), Q(1, 2)}, ws \in BOOLEAN, tr \in BOOLEAN :
           /\ arg = <<cont, stroke, sw, k, ws, tr>>
           /\ exp = ContBox(cont, stroke, sw, k, ws, tr)
   \/ /\ kind = "cont"       \* a use element (parsed document, not reified): the box of what it renders
